@@ -118,16 +118,40 @@ def protected_mask(text: str) -> list[bool]:
 CLS = {'"': "q2", "'": "q1", "“": "L2", "”": "R2", "‘": "L1", "’": "R1"}
 
 
+BLOCK_START = re.compile(r"(?:[-*+]|\d{1,9}[.)])(?:\s|$)|#{1,6}(?:\s|$)|\[\^?[^\]]+\]:|\|")
+
+
+def scopes(text: str) -> list[int]:
+    """scope number of every position of a formatted text: a new scope (paragraph, heading, list item, table cell, definition) starts after a
+    blank line, at a line that opens a block, and at every unescaped pipe of a table line"""
+    seg, cur, pos, prev_blank = [0] * len(text), 0, 0, True
+    for line in text.split("\n"):
+        body = line.lstrip(" >")
+        if not body or prev_blank or BLOCK_START.match(body):
+            cur += 1
+        table = body.startswith("|")
+        for k, ch in enumerate(line):
+            if table and ch == "|" and (k == 0 or line[k - 1] != "\\"):
+                cur += 1
+            seg[pos + k] = cur
+        if pos + len(line) < len(text):
+            seg[pos + len(line)] = cur
+        prev_blank = not body
+        pos += len(line) + 1
+    return seg
+
+
 def diff_trace(off: str, on: str) -> dict:
     mask = protected_mask(off)
+    seg = scopes(off)
     diffs = []
     n = min(len(off), len(on))
     for i in range(n):
         if off[i] != on[i]:
-            diffs.append(dict(c=CLS.get(off[i], "x"), d=CLS.get(on[i], "x"), prot=mask[i], pos=i))
+            diffs.append(dict(c=CLS.get(off[i], "x"), d=CLS.get(on[i], "x"), prot=mask[i], pos=i, seg=seg[i]))
     nl_off = [i for i, ch in enumerate(off) if ch == "\n"]
     nl_on = [i for i, ch in enumerate(on) if ch == "\n"]
-    return dict(len_off=len(off), len_on=len(on), nl_same=nl_off == nl_on, diffs=diffs[:200])
+    return dict(len_off=len(off), len_on=len(on), nl_same=nl_off == nl_on, diffs=diffs[:200], trunc=len(diffs) > 200)
 
 
 # ---------------- quote-bearing documents ----------------
@@ -156,6 +180,9 @@ QUOTE_DOCS = [
                         '{% set pct = "50%" %}\n"Quoted" line {%- if a % b -%} it\'s {%- endif -%} here.\n'),
     # scopes whose composite text starts or ends with a non-text inline that holds edge spaces
     ('code_first', '` --verbose` sets the "mode" value and it\'s fine.\n\n# ` x` isn\'t "plain"\n\n| ` a` "q" | it\'s |\n|---|---|\n| "b" ` c ` | \'d\' |\n\n- ` lead` item\'s "text"\n\n"ends with code" ` tail `\n'),
+    # quotes that would pair only across two scopes (cells of one row, items, heading + paragraph, two quotes) pair with nothing
+    ('cross_scope', '| Name "x | Note |\n| --- | --- |\n| say "yes | or no" ok |\n| \'a | b\' |\n\n- item "one\n- two" end\n\n# Head "open\n\nclosed" in the paragraph.\n\n'
+                    '> quote "open\n\n> closed" next quote\n\n1. \'first\n2. second\' end\n'),
     ('sentence_ends_list', '- The first item says it is "done". And then a second sentence follows here.\n- Another item asks \'why not\'? Because the answer is long enough.\n\n'
                            '> Quoted text ends with "this". Then another sentence inside the quote.\n'),
 ]
